@@ -31,14 +31,17 @@ FR = {
     "clen": {"num": "12", "neg": "-5", "big": BIG, "sp": " ", "x": "x", "plus": "+", "dot": ".", "uni": "٣"},
     "date": {"ok": "Wed, 21 Oct 2015 07:28:00 GMT", "big": "Wed, 21 Oct 99999 07:28:00 GMT", "y0": "Mon, 01 Jan 0001 00:00:00 +2359", "junk": "yesterday",
              "num": "0", "hi": "\xff", "comma": ",", "y9999": "Fri, 31 Dec 9999 23:59:59 -0100", "y9999b": "Fri, 31 Dec 9999 12:00:00 -2359",
-             "y1": "Mon, 01 Jan 0001 00:00:00 +0100"},
+             "y1": "Mon, 01 Jan 0001 00:00:00 +0100", "bigzone": "Tue, 15 Nov 1994 08:12:31 +99999999999999999999",
+             "hugeyear": "Tue, 15 Nov 19940000000000000000000 08:12:31 GMT", "bigsec": "Tue, 15 Nov 1994 08:12:99999999999999999999 GMT"},
     "referer": {"url": "http://ex.com/a", "br": "http://[", "hi": "\xff", "sp": " ", "port": ":99999", "at": "@", "br6": "http://[::1", "uni": "é"},
     "range": {"unit": "bytes=", "r": "0-1", "suf": "-1", "from": "1-", "comma": ",", "big": BIG + "-", "bigsuf": "-" + BIG, "junk": "x", "eq": "=",
               "uni": "٣-٤", "sp": " "},
     "ifrange": {"etag": '"abc"', "date": "Wed, 21 Oct 2015 07:28:00 GMT", "junk": "x", "hi": "\xff", "w": "W/"},
     "inm": {"star": "*", "tag": '"abc"', "w": "W/", "comma": ",", "dq": '"', "hi": "\xff", "sp": " "},
     "ims": {"ok": "Wed, 21 Oct 2015 07:28:00 GMT", "big": "Wed, 21 Oct 99999 07:28:00 GMT", "junk": "soon", "num": "1", "neg": "Thu, 01 Jan 1970 00:00:00 -9999",
-            "hi": "\xff", "y9999": "Fri, 31 Dec 9999 23:59:59 -0100", "y1": "Mon, 01 Jan 0001 00:00:00 +0100"},
+            "hi": "\xff", "y9999": "Fri, 31 Dec 9999 23:59:59 -0100", "y1": "Mon, 01 Jan 0001 00:00:00 +0100",
+            "bigzone": "Tue, 15 Nov 1994 08:12:31 +99999999999999999999", "hugeyear": "Tue, 15 Nov 19940000000000000000000 08:12:31 GMT",
+            "nozone": "Tue, 15 Nov 1994 08:12:31", "minus0": "Tue, 15 Nov 1994 08:12:31 -0000"},
     "body": {"obj": b'{"a": 1}', "open": b"[" * 50, "deep": b"[" * 100000, "bad8": b"\xff\xfe", "nul": b"\x00", "kv": b"a=1&b=2", "pct": b"%zz%", "amp": b"&&=",
              "mp": b'--BB\r\nContent-Disposition: form-data; name="f"\r\n\r\nv\r\n', "mpend": b"--BB--\r\n", "mpnocolon": b"--BB\r\nContent-Disposition\r\n\r\nv\r\n",
              "mpnodisp": b"--BB\r\nX-Other: 1\r\n\r\nv\r\n", "mpnoname": b"--BB\r\nContent-Disposition: form-data\r\n\r\nv\r\n",
@@ -136,7 +139,7 @@ def run_case(world, iface, channel, entry, raw, body=None):
                 r = p.Request(env)
                 v = getattr(r, accessor)
                 if accessor == "url":
-                    str(v), v.path, v.query
+                    str(v), v.path, v.query, v.port, v.hostname, v.netloc, v.username, v.password, repr(v)
                 if accessor == "accepted_types":
                     r.accepts("text/html")
                 if accessor == "form":
@@ -154,7 +157,7 @@ def run_case(world, iface, channel, entry, raw, body=None):
                     if hasattr(v, "__await__"):
                         v = await v
                     if accessor == "url":
-                        str(v), v.path, v.query
+                        str(v), v.path, v.query, v.port, v.hostname, v.netloc, v.username, v.password, repr(v)
                     if accessor == "accepted_types":
                         r.accepts("text/html")
                     if accessor == "form":
@@ -216,7 +219,7 @@ def run(ctx):
                         ctx.violation({"channel": ch, "entry": entry, "iface": iface, "fragments": list(st["value"]), "value": repr(shown)},
                                       "a value, an HTTP 4xx, client-disconnect or stream-consumed", detail,
                                       "%s via %s (%s): %s escapes" % (ch, entry, iface, detail))
-            if any(f in ("nul", "hi", "big", "br", "bad8", "deep", "csbad", "cs16", "uni", "bigsuf", "y0", "y1", "y9999", "y9999b", "neg", "csundef", "cspuny", "formundef", "jsonundef", "multiundef", "mpnocolon", "mpnodisp", "mphi", "mpnoname", "mpfileonly", "mpempty", "mpcont",
+            if any(f in ("nul", "hi", "big", "br", "bad8", "deep", "csbad", "cs16", "uni", "bigsuf", "y0", "y1", "y9999", "y9999b", "bigzone", "hugeyear", "bigsec", "nozone", "minus0", "neg", "csundef", "cspuny", "formundef", "jsonundef", "multiundef", "mpnocolon", "mpnodisp", "mphi", "mpnoname", "mpfileonly", "mpempty", "mpcont",
                          "octbad", "pctbad", "br6", "date", "long", "nl") for f in st["value"]):
                 ctx.nontriv((ch, entry, st["value"]))
             if n in (10, 4000):
